@@ -403,7 +403,7 @@ func c08TLSRun(c c08TLSCase) Verdict {
 		st = quiesce()
 		out = append(out, w.Recv()...)
 	}
-	if st != harness.QIdle || !bytes.Contains(out, []byte("220 2.0.0 Ready to start TLS")) {
+	if st != harness.QIdle || !bytes.Contains(append([]byte("\r\n"), out...), []byte("\r\n220 ")) {
 		w.Finish()
 		return Verdict{Inconclusive: fmt.Sprintf("STARTTLS not accepted: %s (%s)", q(out), st)}
 	}
